@@ -5,6 +5,7 @@ from datetime import datetime
 
 from . import fieldtypes
 from .base import Record, RecordDescriptor
+from .fieldtypes import net  # noqa: F401  (pack_obj tests for fieldtypes.net.* types: the submodule must be loaded)
 from .exceptions import RecordDescriptorNotFound
 from .utils import EventHandler
 
